@@ -50,6 +50,7 @@ type c11Data struct {
 	Double    bool   `json:"double"`
 	Cap1      int    `json:"cap1"`
 	Cap2      int    `json:"cap2"`
+	CBMode    int    `json:"callbacks_missing,omitempty"`
 	Ops       []*qOp `json:"ops"`
 	cur       map[int]*qOp
 	Stranded  string `json:"stranded,omitempty"`
@@ -123,8 +124,14 @@ func c11Body(double bool) func(rc *RunCtx) {
 		var setCap func(c1, c2 int)
 		if !double {
 			q := queue.NewRequestQueue(d.Cap1)
-			q.Failed = func(v interface{}) { d.callback("failed", v) }
-			q.Overflowed = func(v interface{}) { d.callback("overflowed", v) }
+			// callbacks are optional: bit 0 = no Failed, bit 1 = no Overflowed installed
+			d.CBMode = []int{0, 0, 3, 1, 2}[simrt.Choose(5)]
+			if d.CBMode&1 == 0 {
+				q.Failed = func(v interface{}) { d.callback("failed", v) }
+			}
+			if d.CBMode&2 == 0 {
+				q.Overflowed = func(v interface{}) { d.callback("overflowed", v) }
+			}
 			api = queueAPI{
 				put:      func(_ int, v int) bool { return q.Put(v) },
 				putForce: func(_ int, v int) bool { return q.PutForce(v) },
@@ -451,7 +458,7 @@ func qlist(s string) []string {
 	return strings.Split(s, ",")
 }
 
-func c11Model(cap1, cap2 int, single bool) porcupine.Model {
+func c11Model(cap1, cap2 int, failedOn, overflowOn bool) porcupine.Model {
 	return porcupine.Model{
 		Init: func() interface{} { return qState{c1: cap1, c2: cap2} },
 		Step: func(state, input, output interface{}) (bool, interface{}) {
@@ -501,7 +508,10 @@ func c11Model(cap1, cap2 int, single bool) porcupine.Model {
 				if op.Ret != 0 {
 					return false, st
 				}
-				if single && !(len(op.CB) == 1 && op.CB[0] == op.Arg && op.CBKind == "failed") {
+				if failedOn && !(len(op.CB) == 1 && op.CB[0] == op.Arg && op.CBKind == "failed") {
+					return false, st
+				}
+				if !failedOn && len(op.CB) != 0 {
 					return false, st
 				}
 				return true, st
@@ -520,7 +530,10 @@ func c11Model(cap1, cap2 int, single bool) porcupine.Model {
 					ev = append(ev, l[0])
 					l = l[1:]
 				}
-				if single {
+				if !overflowOn && len(op.CB) != 0 {
+					return false, st
+				}
+				if overflowOn {
 					if len(op.CB) != len(ev) || (len(ev) > 0 && op.CBKind != "overflowed") {
 						return false, st
 					}
@@ -625,7 +638,7 @@ func c11After(rc *RunCtx, res *simrt.Result) {
 			rc.Violate("C11", "delivered-and-evicted", "deliv-evict:"+qn, fmt.Sprintf("element %d both delivered and reported evicted", e))
 		}
 	}
-	if !hasClear && !d.Double {
+	if !hasClear && !d.Double && d.CBMode&2 == 0 {
 		for _, e := range sortedInts(accepted) {
 			if delivered[e]+evicted[e] == 0 {
 				rc.Violate("C11", "lost-element", "lost:"+qn, fmt.Sprintf("element %d was accepted but neither delivered, evicted nor left in the queue at the end", e))
@@ -645,7 +658,7 @@ func c11After(rc *RunCtx, res *simrt.Result) {
 		ops = append(ops, porcupine.Operation{ClientId: op.Task, Input: op, Call: op.Call, Output: op.Ret, Return: op.Return})
 	}
 	if len(ops) <= 40 {
-		r := porcupine.CheckOperationsTimeout(c11Model(d.Cap1, d.Cap2, !d.Double), ops, 30*time.Second)
+		r := porcupine.CheckOperationsTimeout(c11Model(d.Cap1, d.Cap2, !d.Double && d.CBMode&1 == 0, !d.Double && d.CBMode&2 == 0), ops, 30*time.Second)
 		if r == porcupine.Illegal {
 			rc.Violate("C11", "linearizability", "nonlinearizable:"+qn, "history is not linearizable w.r.t. the bounded-FIFO model: "+describeQ(d))
 		} else if r == porcupine.Unknown {
